@@ -23,6 +23,7 @@ unsigned long long g_lastUsed = 0, g_tableSize = 0;
 void indexObserver(unsigned long long, unsigned long long usedSize, unsigned long long tableSize) {
     // the last access before the end of the session belongs to the probe search (one thread, nothing runs after
     // its bestmove): it shows the table geometry the probe worked with
+    if (!g_probeActive) return; // a probe search that touches no table (e.g. no legal move at the root) shows none
     g_lastUsed = usedSize;
     g_tableSize = tableSize;
 }
@@ -135,6 +136,15 @@ void runC14(const Scenario& sc, vf::Result& res) {
             if (t[3] == "OwnBook") ownBook = t[5] == "true";
         }
     }
+    // every search of the history must have ended before the probe part begins (Clear Hash is specified between searches)
+    bool historyIdle = true;
+    bool pending = false;
+    for (size_t i = 0; i < mark && i < sc.ops.size(); i++) {
+        if (vf::startsWith(sc.ops[i], "send go")) { if (pending) historyIdle = false; pending = true; }
+        else if (sc.ops[i] == "wait_bestmove") pending = false;
+    }
+    if (pending) historyIdle = false;
+    if (!historyIdle) { res.counters["no_probe"]++; return; }
     // a (minimised) scenario without the complete probe part, or outside the property's domain, has nothing to compare
     if (mark == sc.ops.size() || !haveGo || !havePos || !haveClear || threadsAtProbe != 1 || strengthAtProbe != 1000 || npsAtProbe != 0 || limitStrength || ownBook) { res.counters["no_probe"]++; return; }
     Scenario a = sc, b = sc, a2 = sc;
